@@ -107,6 +107,9 @@ def _shrink(P, v: Violation, budget=40):
     return cur
 
 
+MAX_SHRINK = 3      # signatures that get a minimised replay; the others are reported as found
+
+
 def run_check(pid: str, tier: str, seed: int, replay: str | None = None) -> int:
     t0 = time.time()
     P = _load(pid)
@@ -205,6 +208,7 @@ def run_check(pid: str, tier: str, seed: int, replay: str | None = None) -> int:
     known_hit = []
     lines = []
     have_input = any(v.found_input for v in vios if v.signature not in known_sigs)
+    shrunk = 0
     for sig, vs in by_sig.items():
         v = vs[0]
         if sig in known_sigs:
@@ -214,8 +218,9 @@ def run_check(pid: str, tier: str, seed: int, replay: str | None = None) -> int:
         if not v.found_input and have_input:
             lines.append(f"# also: correspondence broken: {sig}: {v.what} ({len(vs)} case(s))")
             continue
-        if not replay and "/harness/" not in sig:
+        if not replay and "/harness/" not in sig and shrunk < MAX_SHRINK:
             v = _shrink(P, v)
+            shrunk += 1
         rp = core.write_replay(pid, v, seed)
         lines.append(f"# {sig}: {v.what} ({len(vs)} case(s))")
         if v.found_input:
